@@ -54,7 +54,7 @@ struct C06 : Property
 	{
 		return {"O.replace_keeps_position", "O.reinsert_after_delete_goes_last", "O.delete_absent_key", "O.growth_with_tombstones", "O.delete_current_key_in_foreach", "O.add_ex_key_is_new",
 		        "O.add_ex_constant_key", "O.empty_key", "O.long_key", "O.perllike_hash", "O.default_hash", "O.alloc_failure_leaves_map_unchanged", "L.table_size_1", "L.constant_hash_all_collide",
-		        "L.explicit_resize", "L.tombstone_reuse", "L.alloc_failure_leaves_map_unchanged", "seed_source_consulted", "O.delete_current_member_in_visitor"};
+		        "L.explicit_resize", "L.tombstone_reuse", "L.alloc_failure_leaves_map_unchanged", "seed_source_consulted", "O.delete_current_member_in_visitor", "O.global_hash_switched_while_object_lives"};
 	}
 	std::map<std::string, int64_t> cfg_defaults() const override { return {{"perllike", 0}}; }
 
@@ -119,7 +119,7 @@ struct C06 : Property
 			case 5:
 			case 6:
 			case 7: op.kind = "del"; op.a = {key}; break;
-			case 8: op.kind = "get"; op.a = {key}; break;
+			case 8: op.kind = r.chance(1, 2) ? "sethash" : "get"; op.a = {key, (int64_t)r.below(2)}; break;
 			case 9: op.kind = r.chance(1, 3) ? "visitdel" : "iterdel"; op.a = {(int64_t)r.below(8), (int64_t)r.below(3)}; break;
 			case 10: op.kind = layer == 1 ? "resize" : "add"; op.a = {layer == 1 ? (int64_t)r.range(1, 40) : key, (int64_t)r.below(6)}; break;
 			default: op.kind = "add"; op.a = {key, (int64_t)r.below(6)}; break;
@@ -448,6 +448,14 @@ struct C06 : Property
 			{
 				// (all keys are looked up in verify_object anyway)
 				cov += "|lookup";
+			}
+			else if (op.kind == "sethash")
+			{
+				// other code selects another hash for FUTURE tables: this object keeps working with the one it was created with
+				bool to_perl = op.arg(1) & 1;
+				LIB(json_global_set_string_hash(to_perl ? JSON_C_STR_HASH_PERLLIKE : JSON_C_STR_HASH_DFLT));
+				ctx.probe("O.global_hash_switched_while_object_lives");
+				cov += to_perl ? "|perl" : "|dflt";
 			}
 			else if (op.kind == "iterdel")
 			{
